@@ -66,6 +66,59 @@ def gen(rng, tier):
         hist["ET=%s" % et] += 1; hist["accessor=%s" % ACCS[acc]] += 1
         hist["layout=%s" % (LAYOUTS + ["user"])[lay]] += 1; hist["rank=%d" % R] += 1
         hist["argtype=%s" % ("class" if u == 8 else ITYS[u])] += 1
+    # huge offsets: spans above 2^31 elements (unsigned char elements over a lazily committed mapping); only element
+    # identities are compared.  A truncation of the offset to 32 bits anywhere on the access path shows here.
+    nbig = scaled(28 if tier == "quick" else 120)
+    tries = 0
+    while nbig > 0 and tries < 2000:
+        tries += 1
+        t = rng.choice([5, 6, 7, 6, 7])
+        lay = rng.choice([0, 1, 2, 3, 4])
+        R = rng.choice([1, 2, 2, 3])
+        target = rng.choice([(1 << 31) + rng.randrange(1, 1 << 20), 3 * (1 << 30) + rng.randrange(1 << 20), (1 << 32) + rng.randrange(1 << 24), 5 * (1 << 30)])
+        if R == 1:
+            es = [target]
+        elif R == 2:
+            a = rng.choice([3, 40000, 65536, 70001]); es = [a, target // a + 1]
+        else:
+            a, b = rng.choice([(2, 3), (1000, 1000), (7, 65536)]); es = [a, b, target // (a * b) + 1]
+        rng.shuffle(es)
+        if prod1(es) > imax(t) or any(e > imax(t) for e in es):
+            continue
+        pat = rand_pattern(rng, es, 0.8)
+        pat = tuple(DYN if (p != DYN and p > 100000) else p for p in pat)
+        if lay == 2:
+            ss = mapgen.stride_tuples(rng, t, es, 2)
+            if not ss:
+                continue
+            mv = MV(Inst(t, 2, DYN, pat), 1, es, ss[0])
+        elif lay in (3, 4):
+            inst = Inst(t, lay, rng.choice([DYN, 4]), pat)
+            if not inst.instantiable():
+                continue
+            mv = MV(inst, 0, es)
+        else:
+            mv = MV(Inst(t, lay, DYN, pat), 0, es)
+        if not mv.valid_for(t):
+            continue
+        span = 1 + sum((e - 1) * s for e, s in zip(es, mv.strides))
+        if mv.inst.lay in (3, 4) and R >= 2:
+            span = mv.ps * prod1(es[1:] if mv.inst.lay == 3 else es[:-1])
+        if not ((1 << 31) < span <= (1 << 33)):
+            continue
+        acc = rng.choice([0, 0, 2])
+        u = rng.choice([t, 6, 7])
+        if imax(u) < max(es):
+            continue
+        U = CTYPES[u]
+        pts = [[0] * R, [e - 1 for e in es]] + [[rng.randrange(e) for e in es] for _ in range(4)]
+        pr = Prog("drv::run_acc_big<%s, %d, %d, %s>(caseno, tk)" % (mv.inst.cpp_type(), mv.inst.lay, acc, U),
+                  "acc-big ET=unsigned char %s acc=%s U=%s" % (mv.inst.desc(), ACCS[acc], U), cfg_ok=lambda cfg: "san" not in cfg)
+        progs.append(pr)
+        toks = [None] + mv.tokens() + [len(pts)] + [x for p in pts for x in p]
+        cases.append((pr, toks, {"et": "unsigned char", "acc": acc, "lay": mv.inst.lay, "t": t, "es": es, "strides": mv.strides, "u": u, "rank": R, "span": span, "big": True}))
+        hist["huge-offset stream (span > 2^31)"] += 1
+        nbig -= 1
     for n, p in enumerate(progs):
         p.id = n
     for c in cases:
@@ -91,6 +144,8 @@ def judge(r, cfg):
     for f in ("dir", "heap", "rb"):
         if f in im and f in md and im[f] != md[f] and not out:
             out.append((f, "%s: implementation %s, specified %s" % (f, im[f][:160], md[f][:160]), True))
+    if im.get("wr") == "0" and not out:
+        out.append(("wr", "a write through the view did not land in data_handle()[mapping()(idx...)] (huge offset)", True))
     if "heap" in im and not out:
         h = ints(im["heap"])
         if any(v != -1 for v in h[:8] + h[len(h) - 8:]):
